@@ -539,7 +539,21 @@ func c02ScriptCase(c *Ctx, i int, r *rand.Rand) {
 
 // c02Mutate: nothing a downstream handler does to the request alters the pool.
 func c02Mutate(c *Ctx) {
+	hung := false
 	c.Cases("mutate", c.N(1000, 20000), func(i int, r *rand.Rand) {
+		if hung {
+			return
+		}
+		if !c.Guard(90*time.Second, func() { c02MutateCase(c, i, r) }) {
+			hung = true
+			c.Violation("hang", "a call into the balancer (request, pool change or inspection) did not return: the balancer is blocked, typically a lock that was not released on some path", map[string]any{"case": i})
+		}
+	})
+	c.Require("cases_with_sticky_path", 2)
+}
+
+func c02MutateCase(c *Ctx, i int, r *rand.Rand) {
+	{
 		kind := pick(r, []string{"rr", "rb"})
 		useSticky := r.IntN(3) != 0
 		if i == 0 {
@@ -636,13 +650,26 @@ func c02Mutate(c *Ctx) {
 		if i < 2 {
 			c.Sample(map[string]any{"target": kind, "sticky": useSticky, "mutation": mutation, "pool": orig, "script": script})
 		}
-	})
-	c.Require("cases_with_sticky_path", 2)
+	}
 }
 
 // c02Conc: requests racing with administration.
 func c02Conc(c *Ctx) {
+	hung := false
 	c.Cases("conc", c.N(120, 4000), func(i int, r *rand.Rand) {
+		if hung {
+			return
+		}
+		if !c.Guard(180*time.Second, func() { c02ConcCase(c, i, r) }) { // (a case takes well under a second)
+			hung = true
+			c.Violation("hang", "a call into the balancer (request, pool change or inspection) did not return: the balancer is blocked, typically a lock that was not released on some path", map[string]any{"case": i})
+		}
+	})
+	c.Require("conc_nontrivial", 2)
+}
+
+func c02ConcCase(c *Ctx, i int, r *rand.Rand) {
+	{
 		kind := pick(r, []string{"rr", "rb"})
 		var clk atomic.Int64
 		type obs struct {
@@ -835,6 +862,5 @@ func c02Conc(c *Ctx) {
 			c.Count("conc_nontrivial", 1)
 		}
 		_ = ctxKey{}
-	})
-	c.Require("conc_nontrivial", 2)
+	}
 }
